@@ -90,6 +90,8 @@ def worker_init():
     X, H, M, EA = c05.X, c05.H, c05.M, c06.EA
     X.Expr.is_eval = MemoFlag('is_eval')
     X.Expr.simp = MemoFlag('simp')
+    from vf.checks import c12d
+    c12d.worker_init()
 
 
 # -------------------------------------------------------------------------------------------------
@@ -346,13 +348,20 @@ def run_instr(eng, shape, kinds, consts):
 
 def jobs(tier, seed):
     cs = cases(tier, seed)
-    return [('chunk', tier, cs[i:i + CHUNK]) for i in range(0, len(cs), CHUNK)]
+    from vf.checks import c12d
+    return [('chunk', tier, cs[i:i + CHUNK]) for i in range(0, len(cs), CHUNK)] + c12d.jobs(tier, seed)
 
 
 def run_job(job):
-    _, tier, items = job
     res = {'paths': 0, 'queries': 0, 'solver_s': 0.0, 'obligations': 0, 'proved': 0, 'candidates': [],
            'inconclusive': [], 'samples': [], 'programs': 0, 'nontrivial': 0}
+    if job[0] in ('dis12', 'asm12'):
+        from vf.checks import c12d
+        Mode.symbolic = False
+        res['programs'] = 1
+        c12d.run(job, res)
+        return res
+    _, tier, items = job
     for it in items:
         res['programs'] += 1
         check_case(it, res, tier)
@@ -424,6 +433,9 @@ sys.exit(1 if bad else 0)
 
 
 def make_replay(cnd):
+    if cnd['data'].get('kind') in ('dis', 'asm'):
+        from vf.checks import c12d
+        return c12d.make_replay(cnd)
     return REPLAY % {'data': cnd['data']}
 
 
@@ -432,17 +444,20 @@ def main(argv=None):
     t0 = time.time()
     js = jobs(a.tier, a.seed)
     if a.only:
-        js = [(k, t, [it for it in items if a.only in (it[0] + ' ' + G.show(it[1]))]) for k, t, items in js]
-        js = [j for j in js if j[2]]
+        js = [(j[0], j[1], [it for it in j[2] if a.only in (it[0] + ' ' + G.show(it[1]))]) if j[0] == 'chunk' else j for j in js]
+        js = [j for j in js if (j[2] if j[0] == 'chunk' else a.only in repr(j))]
     results, left = common.run_pool('vf.checks.c12', js, nproc=a.nproc, budget_s=1500 if a.tier == 'quick' else 5400)
     cov, cands, inconc, herr = c05.aggregate(results, left)
     cov['exhaustive'] = False
     cov['rule'] = 'a program = one API call (expr_simp / eval_expr / eval_instr) on one shape and state kind; non-trivial = at least one path proved'
     cov['functions_encoded'] = ['expression_helper:expr_simp/_expr_simp_w (simp memo)', 'expression_eval_abstract:eval_expr (is_eval memo, eval_cache), eval_instr/get_instr_mod',
-                                'harness-side descriptor replacing Expr.is_eval / Expr.simp by symbolic booleans']
+                                'harness-side descriptor replacing Expr.is_eval / Expr.simp by symbolic booleans',
+                                'ia32_arch:x86_mn._dis / x86allmncs.get_afs (decode twice around an interleaving, symbolic bytes)', 'emul_helper:get_instr_expr + ia32_sem (lift twice)',
+                                'ia32_arch:x86_mn._asm (assemble twice, symbolic numbers)', 'deep fingerprint of x86mndb / x86_afs / ia32_reg / ia32_sem tables before and after every row']
     cov['bounds'] = ('one-step obligations, no histories: memo flags symbolic per node (is_eval on identifier/constant leaves = what evaluating the same objects on other machines leaves behind; '
                      'simp on nodes that are fixpoints of _expr_simp); frame condition on every path incl. raising ones; shapes: templates + depth-1, width 32 (quick) / 8,16,32. '
-                     'NOT addressed: on-disk PLY tables, heap aliasing, general histories of length <= 50, dis/asm/lift APIs (planned)')
+                     'dis/lift/asm part: one fixed interleaving (6 decodes incl. a truncated one, 5 assemblies incl. 2 raising) between two calls on the same symbolic input, per decoder path; '
+                     'NOT addressed: on-disk PLY tables, heap aliasing, general histories of length <= 50')
     if cov['proved'] == 0:
         herr.append('vacuous: nothing proved')
     assumptions = ['admissible memo states as stated in bounds', 'structural equality of results decided as an SMT formula over the symbolic constants', 'z3 5.1.0', 'SInt proxy']
